@@ -235,6 +235,8 @@ def bundle(mol, es, sett, charges, mults, sp2_tol=None, do_fock=True):
         wit = {"row": b, "species": real, "coords": X[:n].tolist(), "charge": ch, "mult": mu, "method": method}
         # ---- energies ----------------------------------------------------------------------
         exc = 0.0
+        if active[b] == 0 and (active > 0).any():
+            mon["rows_ground_in_mixed_active_batch"] = mon.get("rows_ground_in_mixed_active_batch", 0) + 1
         if active[b] > 0 and cis is not None:
             exc = float(cis[b][int(active[b]) - 1])
             mon["rows_excited"] += 1
